@@ -125,6 +125,17 @@ def _case_limit(spec):
     return base
 
 
+HANGS_ENOUGH = 20      # after that many cases that did not return, the remaining cases of the run are skipped
+
+
+def _init_timeouts():
+    """the shared hang counter of this run (kept when it exists: hangs met while cases were prepared count too)"""
+    global _TIMEOUTS
+    if _TIMEOUTS is None:
+        import multiprocessing as mp
+        _TIMEOUTS = mp.get_context('fork').Value('i', 0)
+
+
 def _note_timeout():
     if _TIMEOUTS is not None:
         with _TIMEOUTS.get_lock():
@@ -161,6 +172,8 @@ class watchdog:
 def _eval_one(c):
     """(impl output, oracle verdict) under a watchdog: a library call that never returns is a failing input"""
     import signal
+    if _TIMEOUTS is not None and _TIMEOUTS.value >= HANGS_ENOUGH:
+        return ['HARNESS-SKIPPED after repeated hangs'], None
     limit = _case_limit(_SPEC)     # CPU seconds of this process (ITIMER_PROF): immune to machine load
     old = signal.signal(signal.SIGPROF, _alarm)
     signal.setitimer(signal.ITIMER_PROF, limit, 5)      # then every 5 CPU-s, in case a bare `except:` swallowed it
@@ -200,10 +213,10 @@ def _die_with_parent():
 
 def _evaluate_all(spec, cases):
     """(impl output, oracle verdict) per case; in worker processes when spec.PARALLEL."""
-    global _SPEC, _TIMEOUTS
+    global _SPEC
     _SPEC = spec
     import multiprocessing as mp
-    _TIMEOUTS = mp.get_context('fork').Value('i', 0)
+    _init_timeouts()
     n = getattr(spec, 'PARALLEL', 0)
     if not n or len(cases) < 64:
         return [_eval_one(c) for c in cases]
@@ -285,12 +298,19 @@ def run_check(spec, tier, seed):
     allcases = corpus + generated
     lines, spans = [], []
     unrunnable = {}      # case index -> why the harness could not even set the case up against the library
+    _init_timeouts()
     for ci, c in enumerate(allcases):
+        if _TIMEOUTS.value >= HANGS_ENOUGH:
+            # the library hangs on input after input: the violation is established, the rest of the cases would only
+            # cost a watchdog period each
+            allcases = allcases[:ci]
+            break
         try:
-            with watchdog(getattr(spec, 'CASE_TIMEOUT', 120)):
+            with watchdog(_case_limit(spec)):
                 ml = spec.model_lines(c)
         except CaseTimeout:
             ml = []
+            _note_timeout()      # (after two hangs the remaining cases are on a short leash, see _case_limit)
             unrunnable[ci] = 'preparing the case against the library never returned (hang)'
         except Exception as e:  # the library raised while the case was being prepared (e.g. while filling a queue)
             ml = []
